@@ -21,6 +21,34 @@ ASSUMPTIONS = ["NumPy evaluating the expression defines 'NumPy can evaluate it'"
 TRUSTED = []
 
 
+def input_class(sub):
+    """A coarse class of the failing input, so that a known finding only covers the failure it describes."""
+    try:
+        sh = G.shadow_eval({**sub, "stmts": sub["stmts"][:-1]}) if len(sub["stmts"]) > 1 else None
+        last = sub["stmts"][-1]
+        env_shapes = {}
+        import cubed
+        env = G.build({**sub, "stmts": sub["stmts"][:-1], "outs": []}, cubed.Spec(allowed_mem="500MB"))
+        arg = env[last["args"][0]]
+        if last["op"] == "cumulative_sum":
+            ax = last["kw"]["axis"]
+            nb = arg.numblocks[ax]
+            def ok(n):
+                while n > 1:
+                    s_ = min(5, n)
+                    q = -(-n // s_)
+                    if s_ * q != n:
+                        return False
+                    n = q
+                return True
+            return "block-count-not-m*5^e" if not ok(nb) else f"blocks={nb}"
+        if 0 in arg.shape:
+            return "zero-length-axis"
+        return "other"
+    except Exception:
+        return "unclassified"
+
+
 def culprit(prog, og):
     """First statement whose own value cannot be computed (sub-program up to it)."""
     for i, s in enumerate(prog["stmts"]):
@@ -42,7 +70,7 @@ def classify(part, prog, r, og):
         op = "?"
         part.count(f"incidental-{r['phase']}:{r['exc_type']}")
         op, sub = culprit(prog, og)
-        part.fail(f"{r['phase']}:{r['exc_type']}:{op}", f"{r['exc_type']} while building {op}: {r['exc']}", {**desc, "minimal": sub, "traceback": r["tb"]})
+        part.fail(f"{r['phase']}:{r['exc_type']}:{op}:{input_class(sub)}", f"{r['exc_type']} while building {op}: {r['exc']}", {**desc, "minimal": sub, "traceback": r["tb"]})
     elif r["phase"] == "execute":
         op, sub = culprit(prog, og)
         part.count(f"failed-mid-run:{r['exc_type']}")
